@@ -34,7 +34,9 @@ func (c *wsConn) tryDelete(s *Subscription) {
 	}
 	refs[s.RID()] = rr
 
-	sent := s.IsSent()
+	// A subscription deleted by a delete event was sent to the client before,
+	// and its references are still counted as sent.
+	sent := s.IsSent() || s.state == stateDeleted
 	sentDiff := 0
 	if sent {
 		sentDiff = 1
